@@ -31,6 +31,10 @@ type pairStats struct {
 
 func main() {
 	r := common.Start("C02", "exploration")
+	if r.Replay != "" {
+		replay(r)
+		return
+	}
 	scratch := common.Scratch("c02")
 	defer os.RemoveAll(scratch)
 	defer adapters.CleanupGenerated()
@@ -113,7 +117,7 @@ func main() {
 		mu.Lock()
 		defer mu.Unlock()
 		st.TracesSubmitted++
-		wit := map[string]any{"pair": j.f.Name, "params": sim.Params, "seed": seed, "schedule": j.idx % 2, "steps": out.StepLog}
+		wit := map[string]any{"pair": j.f.Name, "params": sim.Params, "seed": seed, "schedule": j.idx % 2, "job_index": j.idx, "steps": out.StepLog}
 		switch v.Kind {
 		case "ok":
 			st.TracesAccepted++
@@ -211,4 +215,46 @@ func tailStr(s string, n int) string {
 		return s[len(s)-n:]
 	}
 	return s
+}
+
+// replay rebuilds the stored case of a system pair (factory, seed, job index determine configuration and schedule),
+// re-runs it and asks TLC again. Compiler-test-pair witnesses carry the rejected step with both states; they are
+// re-validated by re-running the check with the same VERIF_SEED.
+func replay(r *common.Run) {
+	key, _, wit, err := r.LoadReplay()
+	if err != nil {
+		fmt.Println("cannot read replay file:", err)
+		os.Exit(3)
+	}
+	name, _ := wit["pair"].(string)
+	seedF, _ := wit["seed"].(float64)
+	idxF, ok := wit["job_index"].(float64)
+	if !ok || strings.HasPrefix(name, "gotests/") || strings.HasPrefix(name, "operators/") {
+		fmt.Println("stored witness (state pair / mismatch) is in the replay file; re-run `./vcheck C02 quick` with the same VERIF_SEED to re-execute it")
+		r.FinishReplay(key)
+	}
+	scratch := common.Scratch("c02r")
+	defer os.RemoveAll(scratch)
+	defer adapters.CleanupGenerated()
+	for _, f := range adapters.Factories("c02") {
+		if f.Name != name {
+			continue
+		}
+		rng := r.Rand(fmt.Sprintf("c02-%s-%d", f.Name, int(idxF)))
+		sim := f.New(int64(seedF), true, rng)
+		sim.Monitor = nil
+		maxSteps := sim.MaxSteps
+		if maxSteps == 0 || maxSteps > 400 {
+			maxSteps = 400
+		}
+		out := sim.Run(maxSteps, true)
+		if len(out.States) < 2 {
+			break
+		}
+		v := sim.Validate(scratch, out.States, 10*time.Minute)
+		if v.Kind == "step" || v.Kind == "init" {
+			r.Report(key, fmt.Sprintf("%s: TLC again rejects the re-executed run (%s at %d)", name, v.Kind, v.RejectedAt), map[string]any{"pair": name, "seed": int64(seedF), "job_index": int(idxF), "steps": out.StepLog, "rejected_at": v.RejectedAt})
+		}
+	}
+	r.FinishReplay(key)
 }
